@@ -502,6 +502,11 @@ fn cmd_check(prop_s: &str, tier: &str) -> i32 {
             None => prefix_complete = false,
         }
     }
+    let debug_only = c11::DEBUG_ONLY_DIFFERENCES.load(std::sync::atomic::Ordering::Relaxed);
+    if debug_only > 0 {
+        println!("NOTE: {debug_only} repeated validations of one parser returned results that are equal (==) but print differently through Debug (iteration order of a hash container inside the tree); C11 is decided by the library's own equality, so this is not reported as a violation");
+        counters.insert("debug_only_differences_between_repeated_validations".to_owned(), debug_only);
+    }
     if capped > 0 {
         println!("NOTE: wall-clock cap of {cap_s}s reached; {capped} runs were not executed (reported in evidence)");
     }
